@@ -78,6 +78,7 @@ type Obligation struct {
 	Replay  string
 	Vars    map[string]string // input name -> SMT term, for model projection
 	Trusted bool
+	RInfo   *ReplayInfo
 }
 
 // Unit is one verification unit (a function under contract, or a lemma).
@@ -193,6 +194,7 @@ type Frame struct {
 	deferred []deferredCall
 	freeVars map[*ssa.FreeVar]*Val
 	closureMap map[string]*ssa.MakeClosure
+	allow   map[string]*allowedSet // modifies clause evaluated at entry (nil: no frame reasoning)
 }
 
 type deferredCall struct {
